@@ -835,6 +835,9 @@ class TdmsChannel(object):
             self.properties, self._group_properties, self._file_properties)
 
     def _read_channel_data_chunks(self):
+        if self.data_type is None:
+            # Channel has no data type so there is no data to read
+            return
         for chunk in self._reader.read_raw_data_for_channel(self.path):
             _convert_channel_data_chunk(chunk, self._raw_timestamps)
             yield chunk
@@ -849,6 +852,9 @@ class TdmsChannel(object):
             raise ValueError("offset must be non-negative")
         if length is not None and length < 0:
             raise ValueError("length must be non-negative")
+        if self.data_type is None:
+            # Channel has no data type so there is no data to read
+            return None
         if self._reader.is_index_file_only():
             raise RuntimeError("Data cannot be read from index file only")
 
